@@ -445,6 +445,139 @@ def gen_http(rng, tier):
     return cases
 
 
+# ------------------------------------------------------------------ HTTP: request-target classes
+METHODS = [b"GET", b"POST", b"HEAD", b"OPTIONS", b"PUT", b"DELETE", b"CONNECT", b"BREW"]
+# (class the client intends, request-target as sent).  What net/http makes of it (form, URL.Scheme, URL.Host,
+# req.Host) is reported by the harness; several of these do not parse at all for some methods.
+TARGETS = [
+    ("origin", b"/p/a?q=1"), ("origin", b"/"), ("origin", b"//h.example/p"), ("origin", b"/http://h.example/"),
+    ("asterisk", b"*"),
+    ("absolute", b"http://h.example/p?q=1"), ("absolute", b"http://h.example:8080/"), ("absolute", b"http://h.example:80/x"),
+    ("absolute", b"http://h.example:/"), ("absolute", b"HTTP://H.Example/"), ("absolute", b"https://h.example/"),
+    ("absolute", b"https://h.example:8443/p"), ("absolute", b"ftp://h.example/f"), ("absolute", b"ws://h.example/s"),
+    ("absolute-nohost", b"http:///x"), ("absolute-nohost", b"http:opaque"), ("absolute-nohost", b"https:///"),
+    ("absolute-nohost", b"mailto:a@h.example"),
+    ("authority", b"h.example:443"), ("authority", b"h.example"), ("authority", b"h.example:80"), ("authority", b"h.example:"),
+    ("authority", b"10.1.2.3:22"),
+    ("emptyhost", b":80"), ("emptyhost", b":"), ("emptyhost", b""), ("emptyhost", b"?q=1"),
+    ("userinfo", b"http://user:pw@h.example/"), ("userinfo", b"user@h.example:443"), ("userinfo", b"http://user@:81/"),
+    ("ipv6", b"[::1]:443"), ("ipv6", b"http://[::1]:8080/"), ("ipv6", b"[fe80::1%25eth0]:80"), ("ipv6", b"http://[::1]:80/"),
+    ("ipv6", b"[::1]"), ("ipv6", b"http://[2001:db8::2]/"),
+    ("loopback", b"localhost:8080"), ("loopback", b"http://127.0.0.1/"), ("loopback", b"http://localhost:80/"),
+    ("malformed", b"h.example:http"), ("malformed", b"http://h.example:x/"), ("malformed", b"http://[::1/"),
+    ("malformed", b"/%zz"), ("malformed", b"http://h ex/"),
+]
+HOST_HEADERS = [b"h.example", b"other.example:8081", None, b"[::2]:80", b"h.example:80", b"h.example:443", b""]
+
+
+def raw_req(rng, method, target, cred, host="auto", ka=None, proto=b"HTTP/1.1", st=None, body=None):
+    """one request head (+ body) as raw bytes; cred in none / wrong / malformed / good (or a raw header value)"""
+    good = b"Basic " + b64(USER + b":" + PASS)
+    if cred == "none":
+        pa = None
+    elif cred == "good":
+        pa = good
+    elif cred == "wrong":
+        pa = rng.choice([b"Basic " + b64(USER + b":nope"), b"Basic " + b64(b"root:" + PASS), b"basic " + b64(PASS + b":" + USER)])
+    elif cred == "malformed":
+        pa = rng.choice([b"Basic", b"Basic ", b"Bearer " + good[6:], b"Basic !" + good[7:], b"Basic " + b64(USER + PASS.replace(b":", b"")),
+                         good[6:], b"", b"Basic " + good[6:] + b" x", b"Digest username=\"user\""])
+    else:
+        pa = cred
+    if host == "auto":
+        host = rng.choice(HOST_HEADERS)
+    lines = [method + b" " + target + b" " + proto]
+    if host is not None:
+        lines.append(b"Host: " + host)
+    if ka is None:
+        ka = rng.random() < 0.3
+    if ka:
+        lines.append(rng.choice([b"Proxy-Connection: keep-alive", b"Connection: Keep-Alive"]))
+    if st is None:
+        st = rng.choice([200, 204, 404])
+    lines.append(b"X-Verif-Status: %d" % st)
+    if body is None and method in (b"POST", b"PUT") and rng.random() < 0.6:
+        body = bytes(rng.choice(b"abcxyz=&") for _ in range(rng.randint(1, 9)))
+    if body is not None:
+        lines.append(b"Content-Length: %d" % len(body))
+    if pa is not None:
+        lines.insert(rng.randrange(1, len(lines) + 1), rng.choice([b"Proxy-Authorization: ", b"proxy-authorization:"]) + pa)
+    raw = b"\r\n".join(lines) + b"\r\n\r\n" + (body or b"")
+    return raw, {"pauth": None if pa is None else hx(pa), "cl": None, "te": False}
+
+
+def gen_http_forms(rng, tier):
+    """every method x every request-target class x every credential state, as raw bytes on the connection
+    (net/http decides what the target is), alone, in front of pipelined bytes, and behind an accepted
+    keep-alive request"""
+    cases = []
+
+    def emit(auth, parts, tail, dial=True, cls=""):
+        raws = b"".join(r for r, _ in parts)
+        stream = raws + tail
+        mode = rng.randrange(4)
+        if mode == 0 or len(stream) < 3:
+            ch = [stream]
+        elif mode == 1:
+            cut = rng.randrange(1, len(stream))
+            ch = [stream[:cut], stream[cut:]]
+        elif mode == 2 and tail:
+            ch = [raws, tail]
+        else:
+            ch = chunkings(rng, stream, 1)[0]
+        cases.append({"k": "http", "auth": auth, "user": hx(USER), "pass": hx(PASS), "dial": dial, "chunks": [hx(c) for c in ch],
+                      "status": [], "tail": -1, "reqs": [g for _, g in parts], "h": 0, "cls": cls})
+
+    def tail_for(method):
+        r = rng.random()
+        if method == b"CONNECT":
+            return rng.choice([b"", b"\x16\x03\x01\x00\x05hello", b"GET / HTTP/1.1\r\n\r\n", bytes(rng.randrange(256) for _ in range(rng.randint(1, 30)))])
+        if r < 0.4:
+            return b""
+        if r < 0.6:
+            return b"\x00\xffjunk"
+        # a second request the client pipelines without waiting: never to be looked at unless the first one
+        # was accepted and kept the connection alive - and then gated on its own (it carries no credentials)
+        return raw_req(rng, rng.choice([b"CONNECT", b"GET"]), rng.choice([b"h.example:443", b"http://h.example/2", b"/x"]), "none")[0] + b"tunnel"
+
+    creds = ["none", "wrong", "malformed", "good"]
+    rounds = 1 if tier == "quick" else 4
+    for rnd in range(rounds):
+        for ti, (cls, tgt) in enumerate(TARGETS):
+            for mi, method in enumerate(METHODS):
+                if tier == "quick" and method != b"CONNECT":
+                    # every method without credentials; accepted credentials with two of the methods, wrong and
+                    # malformed ones with one each (rotating over the targets)
+                    k = (mi + ti + rnd) % 7
+                    todo = ["none"] + (["good"] if k in (0, 4) else []) + (["wrong"] if k == 1 else []) + (["malformed"] if k == 3 else [])
+                else:
+                    todo = creds
+                for cred in todo:
+                    r = raw_req(rng, method, tgt, cred, proto=b"HTTP/1.0" if rng.random() < 0.08 else b"HTTP/1.1")
+                    emit(True, [r], tail_for(method), dial=rng.random() < 0.9, cls="%s/%s/%s" % (method.decode(), cls, cred))
+            # no AuthFunc configured: the same targets go straight through
+            r = raw_req(rng, rng.choice(METHODS), tgt, rng.choice(["none", "wrong"]))
+            emit(False, [r], b"", cls="noauth/" + cls)
+        # several requests on one connection: behind an accepted keep-alive request (upstream answered,
+        # connection kept) every class again with no / wrong / malformed credentials - each request is
+        # gated on its own - and with accepted ones
+        for cls, tgt in TARGETS:
+            ms = [b"CONNECT", rng.choice(METHODS[:6] + METHODS[7:])] if tier == "quick" else METHODS
+            for method in ms:
+                for cred in (["none", rng.choice(["wrong", "malformed", "good"])] if tier == "quick" else creds):
+                    r1 = raw_req(rng, rng.choice([b"GET", b"POST", b"HEAD"]), rng.choice([b"http://h.example/1", b"http://k.example:8080/k"]),
+                                 "good", host=b"h.example", ka=True)
+                    r2 = raw_req(rng, method, tgt, cred)
+                    emit(True, [r1, r2], tail_for(method), cls="2nd/%s/%s/%s" % (method.decode(), cls, cred))
+        # three requests: accepted, accepted (hostless / non-proxy form: 400, connection closed), anything
+        for cls, tgt in rng.sample(TARGETS, 6 if tier == "quick" else len(TARGETS)):
+            r1 = raw_req(rng, b"GET", b"http://h.example/1", "good", host=b"h.example", ka=True)
+            r2 = raw_req(rng, rng.choice(METHODS[:6]), rng.choice([b"/", b"*", b"/p"]), "good", ka=True)
+            r3 = raw_req(rng, rng.choice(METHODS), tgt, rng.choice(creds))
+            emit(True, [r1, r2, r3], b"", cls="3rd/" + cls)
+    return cases
+
+
 def gen_reads(rng, tier, kind):
     n = 25 if tier == "quick" else 600
     cases = []
@@ -572,7 +705,7 @@ def gen_mux(rng, tier):
 
 
 def gen(rng, tier):
-    return gen_socks(rng, tier) + gen_http(rng, tier) + gen_reads(rng, tier, "cached") + gen_reads(rng, tier, "onebyte") + gen_mux(rng, tier)
+    return gen_socks(rng, tier) + gen_http(rng, tier) + gen_http_forms(rng, tier) + gen_reads(rng, tier, "cached") + gen_reads(rng, tier, "onebyte") + gen_mux(rng, tier)
 
 
 # ------------------------------------------------------------------ Coq terms
@@ -653,6 +786,9 @@ def hev_terms(ev):
     return "[" + ";".join(out) + "]"
 
 
+FORMS = {"origin": "FOrigin", "asterisk": "FAsterisk", "absolute": "FAbsolute", "authority": "FAuthority"}
+
+
 def to_coq(c, o):
     k = c["k"]
     if o.get("panic") or o.get("hang"):
@@ -661,12 +797,23 @@ def to_coq(c, o):
         return "CSocks %s %s %s %s %s %s" % (auth_term(c), cbool(c["dudp"]), cbool(c["dial"]), cbool(c["udp"]),
                                            script(c["chunks"]), sev_terms(o["ev"]))
     if k == "http":
-        reqs = "[" + ";".join("mkHReq %s %s %s %s %d" % (cbool(r["connect"]), cb(r["addr"]),
-                                                         "None" if r["pauth"] is None else "(Some %s)" % cb(r["pauth"]),
-                                                         cbool(r["ka"]), r["st"]) +
-                              (" FrChunked" if r.get("te") else " (FrLen %d)" % r["cl"] if r.get("cl") is not None else " FrNone")
-                              for r in c["reqs"]) + "]"
-        return "CHttp %s %s %s %d%%nat %s %s" % (auth_term(c), cbool(c["dial"]), reqs, c["h"], script(c["chunks"]), hev_terms(o["ev"]))
+        # the requests as net/http parsed them (harness report), overlaid with what only the generator knows:
+        # the raw Proxy-Authorization value as sent, the status the scripted upstream answers with, the framing
+        if "parsed" not in o:
+            return None
+        gen_reqs = c.get("reqs") or []
+        terms = []
+        for i, p in enumerate(o["parsed"]):
+            g = gen_reqs[i] if i < len(gen_reqs) else {}
+            pauth = g["pauth"] if "pauth" in g else p.get("pauth")
+            st = g["st"] if "st" in g else p["st"]
+            fr = " FrChunked" if g.get("te") else " (FrLen %d)" % g["cl"] if g.get("cl") is not None else " FrNone"
+            terms.append("mkHReq %s %s %s %s %s %s %s %s %d%s" % (
+                cb(p["method"]), cb(p["uri"]), FORMS[p["form"]], cb(p["scheme"]), cb(p["uhost"]), cb(p["host"]),
+                "None" if pauth is None else "(Some %s)" % cb(pauth), cbool(p["ka"]), st, fr))
+        h = o["h"] if o.get("h", -1) >= 0 else 0
+        return "CHttp %s %s %s %d%%nat %s %s" % (auth_term(c), cbool(c["dial"]), "[" + ";".join(terms) + "]", h,
+                                                script(c["chunks"]), hev_terms(o["ev"]))
     if k in ("cached", "onebyte"):
         if "reads" not in o:
             return None
